@@ -170,6 +170,9 @@ def _halflife_to_int(halflife):
 
 def _times_to_int_array(times):
     times, _ = _convert_timestamp_to_tz_unaware(times)
+    if times.dtype.kind == "M":
+        # halflives are expressed in nanoseconds, so the times must be as well
+        times = times.astype("M8[ns]")
     return times.view(np.int64)
 
 
